@@ -7,6 +7,7 @@
      enum <size> <nthieves> | <owner ops> | <thief ops> ... | <prefix schedule>  (all maximal schedules after the prefix)
    Ops: P<tag> push, O pop, U<tag> put, T take, W0/W1 wsapi take (decline/accept), S<tag> trypass, K peek. *)
 open WsqModel
+open TsoModel
 module SL = Stdlib.List
 module SS = Stdlib.String
 
@@ -105,6 +106,72 @@ let enumerate size nth oprog tprogs prefix limit =
   go !s0 !pg0 [] 0;
   print_endline (if !count >= limit then "TRUNCATED" else "END")
 
+(* ---------------- TSO ---------------- *)
+let fclass_of = function 'F' -> Full | 'C' -> CompilerOnly | 'N' -> Nothing | c -> failwith "bad fence class"
+let table_of w =
+  if SS.length w <> 7 then failwith "fence table: 7 letters F/C/N";
+  let g i = fclass_of (SS.get w i) in
+  { f_push_r = g 0; f_push_w = g 1; f_pop_rw = g 2; f_take_rw = g 3; f_take_r = g 4; f_pass_w = g 5; f_unlock = g 6 }
+
+let zl l = "[" ^ SS.concat "," (SL.map (fun z -> string_of_int (iz z)) l) ^ "]"
+let tso_summary (s : tstate) =
+  let c = s.sc in
+  Printf.sprintf "top=%d base=%d lock=%d slots=%s pushed=%s returned=%s dup=%b aborted=%b"
+    (iz c.mm.top) (iz c.mm.base) (iz c.mm.lck) (zl c.mm.ptr) (zl c.pushed) (zl c.returned)
+    (has_dup c.returned) c.aborted
+
+(* schedule tokens:  i  = one program step of participant i,  fi = flush the oldest store of i *)
+let tok_of w = if SS.get w 0 = 'f' then (int_of_string (SS.sub w 1 (SS.length w - 1)), true)
+               else (int_of_string w, false)
+
+let sorted l = SL.sort compare (SL.map iz l)
+(* multiset of pushed = returned + what is left in memory (all buffers drained) *)
+let conserved (s : tstate) =
+  let c = s.sc in
+  let rec seg i hi = if i >= hi then [] else SL.nth c.mm.ptr i :: seg (i + 1) hi in
+  let b = iz c.mm.base and t = iz c.mm.top in
+  b >= 0 && t <= SL.length c.mm.ptr && b <= t &&
+  sorted c.pushed = SL.sort compare (SL.map iz c.returned @ SL.map iz (seg b t))
+
+let tso_explore tbl size nth oprog tprogs prefix maxstates =
+  let np = nth + 1 in
+  let s0 = ref (tso_init (zi size) (ni nth)) and pg0 = ref { oprog; tprogs } in
+  SL.iter (fun (p, f) -> match tso_sched_step tbl !s0 !pg0 (ni p) f with
+                         | Some (s', pg') -> s0 := s'; pg0 := pg' | None -> ()) prefix;
+  let seen = Hashtbl.create 100003 in
+  let q = Queue.create () in
+  let key s pg = Marshal.to_string (s, pg) [] in
+  Hashtbl.replace seen (key !s0 !pg0) ();
+  Queue.add (!s0, !pg0, []) q;
+  let found = ref None and n = ref 0 in
+  (try while not (Queue.is_empty q) do
+    let (s, pg, path) = Queue.pop q in
+    incr n;
+    if !n > maxstates then raise Exit;
+    if has_dup s.sc.returned then (found := Some (path, s, "duplicate")); 
+    if !found <> None then raise Exit;
+    let any = ref false in
+    for p = 0 to np - 1 do
+      SL.iter (fun f ->
+        match tso_sched_step tbl s pg (ni p) f with
+        | Some (s', pg') ->
+           any := true;
+           let k = key s' pg' in
+           if not (Hashtbl.mem seen k) then begin
+             Hashtbl.replace seen k ();
+             Queue.add (s', pg', (p, f) :: path) q
+           end
+        | None -> ()) [false; true]
+    done;
+    if not !any && not s.sc.aborted && not (conserved s) then (found := Some (path, s, "lost-or-duplicated"); raise Exit)
+  done with Exit -> ());
+  match !found with
+  | Some (path, s, why) ->
+     Printf.printf "FOUND %s | %s | %s\n" why
+       (SS.concat " " (SL.map (fun (p, f) -> (if f then "f" else "") ^ string_of_int p) (SL.rev path)))
+       (tso_summary s)
+  | None -> Printf.printf "NONE states=%d%s\n" (Hashtbl.length seen) (if !n > maxstates then " TRUNCATED" else "")
+
 let () =
   try while true do
     let line = input_line stdin in
@@ -116,6 +183,19 @@ let () =
         let (o, ts, prefix) = parse_progs flds nth in
         let limit = match rest with l :: _ -> int_of_string l | [] -> 200000 in
         enumerate (int_of_string sz) nth o ts prefix limit
+     | ["tsorun"; sz; nth; tb] ->
+        let nth = int_of_string nth in
+        let o = SL.map oop_of (words (SL.nth flds 1)) in
+        let ts = SL.init nth (fun i -> SL.map top_of (words (SL.nth flds (2 + i)))) in
+        let sch = SL.map tok_of (words (SL.nth flds (2 + nth))) in
+        let (s, _) = tso_run (table_of tb) (SL.map (fun (p, f) -> (ni p, f)) sch) (tso_init (zi (int_of_string sz)) (ni nth)) { oprog = o; tprogs = ts } in
+        print_endline (tso_summary s)
+     | ["tsoexplore"; sz; nth; tb; mx] ->
+        let nth = int_of_string nth in
+        let o = SL.map oop_of (words (SL.nth flds 1)) in
+        let ts = SL.init nth (fun i -> SL.map top_of (words (SL.nth flds (2 + i)))) in
+        let prefix = SL.map tok_of (words (SL.nth flds (2 + nth))) in
+        tso_explore (table_of tb) (int_of_string sz) nth o ts prefix (int_of_string mx)
      | [sz; nth] ->
         let nth = int_of_string nth in
         let (o, ts, sched) = parse_progs flds nth in
